@@ -78,3 +78,18 @@ func zzBytesToWords(in []byte) []uint64 {
 	}
 	return out
 }
+
+// recording variant of the range check (set "ffrecord"): the byte strings handed to the field
+// decoder are kept, so that a harness can decide that the point decoders pass exactly the
+// coordinate bytes of the input (flag bits of the first byte cleared, nothing else touched).
+
+var ZZDecoded [][]byte
+
+//zz:replace ecc/bls12381/ff.setBytesBounded set=ffrecord
+func zzStubSetBytesBoundedRec(in []byte, order []byte) ([]uint64, error) {
+	ZZDecoded = append(ZZDecoded, append([]byte{}, in...))
+	if zzFreshBool() {
+		return nil, errInputRange
+	}
+	return zzUF64("fp381.frombytes", len(in)/8, zzBytesToWords(in)), nil
+}
